@@ -103,6 +103,11 @@ def run_history(ctx):
             if use_state:
                 ops.append({"op": "save", "oid": oid, "value": oid})
                 expect.append(None)
+        # once populated, the store is sometimes opened read-only (a shared / remote cache): integrity checks behave the same
+        read_only = rng.random() < 0.25
+        if read_only:
+            odb.read_only = True
+        ctx.count("history:read_only=%s" % read_only)
         tampered = {}
         for step in range(rng.randrange(3, 9)):
             r = rng.random()
